@@ -83,7 +83,9 @@ def run_property(prop, tier, seed, replay=None):
         first = 0
         while first < n:
             c = min(per, n - first)
-            jobs.append((engine, params, seed, first, c, prop, ent.get("timeout", 900)))
+            # shard watchdog: generous (a loaded machine must not turn a long shard into an inconclusive one; cases that
+            # really hang are caught one by one by the hang watchdog of the worker)
+            jobs.append((engine, params, seed, first, c, prop, max(ent.get("timeout", 900), 900 + int(0.6 * c))))
             first += c
     with ThreadPoolExecutor(max_workers=NPROC) as ex:
         results = list(ex.map(run_shard, jobs))
